@@ -59,6 +59,7 @@ class State:
         self.pc = []  # path condition: list of z3 Bool
         self.old = None  # env at function entry (for old())
         self.trail = []  # human readable branch decisions
+        self.rebound = set()  # names that were assigned to (no longer the caller's object)
 
     def copy(self):
         s = State()
@@ -66,6 +67,7 @@ class State:
         s.pc = list(self.pc)
         s.old = self.old
         s.trail = list(self.trail)
+        s.rebound = set(self.rebound)
         return s
 
     def assume(self, c):
